@@ -188,8 +188,9 @@ pub struct MemProvider {
     pub cs: usize,
 }
 
-/// Provider calls allowed per query: two category walks of at most 65536 * 32 + 8 iterations plus slack.
-pub const STEP_CAP: u64 = 2 * (65536 * 32 + 8) + 200_000;
+/// Provider calls allowed per query: two category walks of at most 32768 + 8 iterations (the model's `catFuel`)
+/// plus slack for the reads.
+pub const STEP_CAP: u64 = 2 * (32768 + 8) + 200_000;
 
 impl MemProvider {
     pub fn new(img: Vec<u8>, fill: Fill, cs: usize) -> Self {
@@ -310,7 +311,7 @@ fn guarded(prov: &MemProvider, f: impl FnOnce() -> String) -> String {
 fn run_range(prov: &MemProvider, via_start_at: bool, a: u16, b: u16, ops: &str) -> String {
     let out: RefCell<Vec<String>> = RefCell::new(Vec::new());
     let dead = std::cell::Cell::new(false);
-    let final_p: RefCell<Option<(u16, u16)>> = RefCell::new(None);
+    let final_p: RefCell<Option<(u32, u32)>> = RefCell::new(None);
     let r = catch_unwind(AssertUnwindSafe(|| {
         let mut r: EepromRange<MemProvider> =
             if via_start_at { hook::Eeprom::new(prov.clone()).start_at(a, b) } else { hook::range_new(prov.clone(), a, b) };
